@@ -28,12 +28,11 @@ def check(ctx):
     F = FuncView(ctx, fl)
     ff = F.need(F.call_nodes("self.file.flush"), "self.file.flush()")
     fs = F.need(F.call_nodes("os.fsync"), "os.fsync(...)")
-    tests = F.tests(lambda t: True)
-    guard_ok = len(tests) == 1 and src(tests[0].ast.test).replace(" ", "").replace("(", "").replace(")", "") == "self.fileandnotself.file.closed"
-    rets = [n for n in F.cfg.nodes if n.kind == "return"]
+    # the only condition on flushing is "the file is open", in any spelling (nested, merged, or as an early return of the
+    # complement); nothing else may stand between the flush and the fsync
+    guard_ok = all(F.facts(n) == {"self.file", "not self.file.closed"} for n in ff)
     c = [c for n, c in F.calls("os.fsync")][0]
-    ok = guard_ok and not rets and F.dominated(fs, ff) and F.dominated_by_edge(ff, tests[0], "T") and \
-        F.cfg.always_reaches([ff[0].id], [fs[0].id]) and src(c.args[0]) == "self.file.fileno()"
+    ok = guard_ok and F.dominated(fs, ff) and F.cfg.always_reaches([ff[0].id], [fs[0].id]) and src(c.args[0]) == "self.file.fileno()"
     ctx.check(ok, "T3-flush", fl, "Log.flush: if file open: file.flush(); os.fsync(file.fileno()) - no other condition, no early return",
               "a flush that is skipped or stops at the userspace buffer loses records that were written before the flush when the "
               "process dies")
@@ -51,7 +50,8 @@ def check(ctx):
     lp = G.need(_framing.loops_over(G, "self.logs"), "loop over self.logs")
     fc = G.need(G.call_nodes("self.flush"), "self.flush() in Logger.log")
     fst = [n for n in G.stores("self.flushStamp") if G.cfg.reachable(fc[0].id) & {n.id}]
-    t = G.tests(lambda t: src(t).replace("(", "").replace(")", "") == "self.store.stamp - self.flushStamp >= self.flushPeriod")
+    t = [x for x in G.cfg.nodes if x.kind == "test" and
+         src(G.sym(x.ast.test, x)).replace("(", "").replace(")", "") == "self.store.stamp - self.flushStamp >= self.flushPeriod"]
     ok = bool(t) and G.dominated_by_edge(fc, t[0], "T") and not (G.cfg.reachable(G.cfg.entry.id, removed_edges=G.cfg.edges_from(lp[0].id, "done")) & {t[0].id})
     good = [n for n in G.stores("self.flushStamp") if G.dominated_by_edge([n], t[0], "T")] if t else []
     ok = ok and bool(good) and all(G.dominated([n], fc) for n in good)
